@@ -17,6 +17,30 @@ CLAIMED = {
              text='cat_is_busy is interpreted for every (command state, event state) pair with all other fields unknown: BUSY is required whenever a line is in progress or an event line is being emitted, OK for the quiescent pair; cat_is_hold must be HOLD iff the hold flag and depend on nothing else. The state space of the predicate is finite and enumerated completely.',
              note='"partially emitted" is read as: the event machine is in its byte-emitting state. Trusted: interpreter transfer functions.',
              ref='DESIGN.md 4/C18'),
+ 'C01': dict(technique='typestate (LF / ACKED / LINE history bits) by dataflow over the command machine extracted from the source',
+             text='The command state machine is extracted from cat_service by abstract interpretation on every run; a forward dataflow over its abstract-state graph tracks whether the last consumed byte of the line was LF, whether the line was answered, and whether a line is in progress. Every transition that loads a result code must have LF true and no earlier answer; nothing is read and no handler runs between the answer and the return to idle; no byte is read after the terminating LF; idle is re-entered only after an answer; idle skips only LF/CR. All input bytes, tables and buffer sizes are covered at once because the transitions are enumerated symbolically.',
+             note='Handlers eventually return a terminal code; an event handler does not return HOLD (O1). Trusted: extraction (abstract interpreter, joins), the recognition of a result code as a copy of the literal OK/ERROR to the start of the command buffer.',
+             ref='DESIGN.md 4/C01'),
+ 'C11': dict(technique='who-may-write, guard-dominance and stage typestate over both extracted machines',
+             text='io->write occurs only in transitions leaving each machine\'s FLUSH_IO_WRITE state; every store of FLUSH_IO_WRITE into a machine\'s state carries the path fact that the other machine is not flushing (inductive mutual exclusion, in the order the machines step); the flushing state is left only at the NUL of the last stage towards the continuation fixed at flush start; stage changes reset the cursor and point at the right buffer; no buffer write or handler runs while a unit is pending or being emitted; each machine writes only its own buffer region and none of the other machine\'s fields.',
+             note='Callback contract (buffer left NUL-terminated inside max_data_size; event handlers do not return HOLD). Byte-for-byte content of units is not compared with an executed run.',
+             ref='DESIGN.md 4/C11'),
+ 'C12': dict(technique='stutter-step effect analysis on every extracted transition; who-may-call for the io roles',
+             text='A step whose io->read found no byte, or whose io->write was refused, has an empty effect set and keeps the state (so retrying is the only consequence); an accepted write advances exactly the cursor by one and the byte handed over is write_buf[position] (provenance of the loaded byte); at most one read and one write per machine step; io roles are called from one reader and the two flushers only; the event machine never reads. Hence outputs and handler calls are a function of the input stream and timing only inserts stutter steps.',
+             note='io->read writes *ch only when it reports a byte (cat.h). Relative order between event units and response units legitimately depends on timing and is not claimed.',
+             ref='DESIGN.md 4/C12'),
+ 'C14': dict(technique='invariants over the extracted command machine plus deep interpretation of cat_hold_exit',
+             text='With the hold flag set no transition reads input or answers except the release step; the HOLD handler does nothing while the status is 0 and otherwise clears the flag and answers exactly once with OK iff status>0; entering the hold clears a stale status and parks the machine; idle is never entered with the flag set; cat_hold_exit outside a hold returns ERROR_NOT_HOLD with an empty store set and inside a hold stores only +/-1; the event machine reads the flag only to record a release.',
+             note='HOLD returned by an event handler is outside the statement (O1). cat_is_hold itself is C18.',
+             ref='DESIGN.md 4/C14'),
+ 'C15': dict(technique='effect analysis of OK-returning paths, abstract replay of the status merge per event-step outcome class, SCC ranking witnesses on the silent-step graph',
+             text='(a) every command-machine step that lets cat_service return OK is a reading handler whose read failed and changed nothing; (b) the tail of cat_service is re-interpreted for every outcome class of an event step (returned status, next event state, queue provably empty or not) for queue capacities 1,2 (quick) / 1,2,3,8 (thorough): OK requires idle and empty; (c) every strongly connected component of steps that neither consume, emit, pop an event nor call a handler carries a (lexicographic) strictly increasing cursor; (d) both dispatchers have a case for every enumerator.',
+             note='Fair io schedule and terminating handlers are assumed as in the property. Linear step bound is reported through the ranking cursors, not separately proven.',
+             ref='DESIGN.md 4/C15'),
+ 'C20': dict(technique='reaching-definitions (stale-field) dataflow with idle as cut point, sibling agreement of the CR handlers, selector table',
+             text='Per-line fields are marked stale at idle; a load of a stale field before a store on any continuation is a violation, so nothing of an earlier line can influence a later one; the flags carried by value (cr_flag, implicit_write_flag, hold flag) are constant false on every edge into idle; every reading state reacts to CR by setting only cr_flag (idle ignores it); newline text is spelled in one selector only, which returns CRLF iff cr_flag.',
+             note='Variable values and handler behaviour are part of a line\'s input. Event lines use the current line\'s flag (not claimed).',
+             ref='DESIGN.md 4/C20'),
 }
 
 def main():
